@@ -830,13 +830,15 @@ pub fn explore(ctx: &Ctx) -> Outcome {
         // interleaving pass: the same search, one level less, with a call on a second live
         // archive before every call of every history
         DECOY.store(true, std::sync::atomic::Ordering::Relaxed);
-        let d = bfs::explore(&sys, Some(max_depth - 1), Some(2_000_000));
+        // (quick tier: the slower checked build takes this pass one level less again)
+        let decoy_depth = if ctx.is_checked() && ctx.tier == Tier::Quick { max_depth - 2 } else { max_depth - 1 };
+        let d = bfs::explore(&sys, Some(decoy_depth), Some(2_000_000));
         DECOY.store(false, std::sync::atomic::Ordering::Relaxed);
         cov.states += d.states;
         cov.transitions += d.transitions;
         cov.traces_validated_against_impl += d.transitions;
         cov.evaluations += d.transitions;
-        cov.extra.insert("interleaved_second_archive".into(), json!({"depth": max_depth - 1, "states": d.states, "transitions": d.transitions, "decoy_calls": DECOY_STEPS.load(std::sync::atomic::Ordering::Relaxed)}));
+        cov.extra.insert("interleaved_second_archive".into(), json!({"depth": decoy_depth, "states": d.states, "transitions": d.transitions, "decoy_calls": DECOY_STEPS.load(std::sync::atomic::Ordering::Relaxed)}));
         for v in d.violations {
             o.violate(format!("interleaved:{}", v.sig), format!("[a call on a second archive before every call] {}", v.summary), json!({"interleaved": true, "history": op_json(&v.history)}));
         }
